@@ -106,6 +106,31 @@ def family_deg(tier):
     return out
 
 
+KINDS_SIG = ['b<==a*a', 'c<==a+1', 'd<==b*c', 'd<==b+c', 'b<--a', 'c<--b', 'b===c', 'c===a', 'd<==b', 'd<==c', 'c<==b*a']
+PASSES = ['find_bitwise_complement', 'find_signal_assignments', 'run_complexity_analysis', 'run_side_effect_analysis', 'find_field_element_arithmetic', 'find_field_element_comparisons',
+          'find_unconstrained_division', 'find_bn254_specific_circuits', 'find_unconstrained_less_than', 'find_constant_conditional_statement', 'find_under_constrained_signals',
+          'find_nonstrict_binary_conversion']
+
+
+def family_sig(tier):
+    """straight-line templates over an input signal a, intermediate signals b, c and an output signal d (C17: every intra-procedural
+    pass under several hash iteration orders)"""
+    key = ('sig', tier)
+    if key in _FAM: return _FAM[key]
+    out = []
+    for n in range(1, (3 if tier == 'quick' else 4) + 1):
+        alpha = KINDS_SIG if n <= 3 else KINDS_SIG[:6]
+        for ks in itertools.product(alpha, repeat=n):
+            out.append((('block', tuple(('leaf', False) for _ in range(n))), ks, ()))
+    _FAM[key] = out
+    return out
+
+
+def tasks_sig(tier):
+    n = len(family_sig(tier)); chunk = max(1, (n + 127) // 128)
+    return [{'lo': i, 'hi': min(n, i + chunk), 'tier': tier, 'dt': 'Template', 'mode': 'passes'} for i in range(0, n, chunk)]
+
+
 def tasks_deg(tier):
     n = len(family_deg(tier)); chunk = max(1, (n + 127) // 128)
     return [{'lo': i, 'hi': min(n, i + chunk), 'tier': tier, 'dt': 'Template', 'mode': 'degrees'} for i in range(0, n, chunk)]
@@ -310,7 +335,7 @@ def run_task(task):
     h = Harness(pr, 'analysis'); h.step_budget = 6_000_000
     h.notes['render_format'] = True
     stats = Stats()
-    fam = family_deg(task['tier']) if task.get('mode') == 'degrees' else family(task['tier']); dt = task['dt']
+    fam = family_deg(task['tier']) if task.get('mode') == 'degrees' else (family_sig(task['tier']) if task.get('mode') == 'passes' else family(task['tier'])); dt = task['dt']
     shape = z3.Int('shape')
     h.inputs = {'shape': shape}
     base = [shape >= task['lo'], shape < task['hi']]
@@ -325,6 +350,13 @@ def run_task(task):
         asg = lambda n, e: ir.subst(V[n](), 'AssignLocalOrComponent', e, meta=m())
         if kind == 'B=0': return asg('B', ir.number(0, meta=m()))
         if kind == 'C=0': return asg('C', ir.number(0, meta=m()))
+        if task.get('mode') == 'passes':
+            sv = lambda n_: ir.variable(ir.name(n_), meta=m())
+            lhs, op_, rhs = re.match(r'(\w)(<==|<--|===)(.*)', kind).groups()
+            e = {'a*a': lambda: ir.infix('Mul', sv('a'), sv('a'), meta=m()), 'a+1': lambda: ir.infix('Add', sv('a'), ir.number(1, meta=m()), meta=m()), 'b*c': lambda: ir.infix('Mul', sv('b'), sv('c'), meta=m()),
+                 'b+c': lambda: ir.infix('Add', sv('b'), sv('c'), meta=m()), 'b*a': lambda: ir.infix('Mul', sv('b'), sv('a'), meta=m()), 'a': lambda: sv('a'), 'b': lambda: sv('b'), 'c': lambda: sv('c')}[rhs]()
+            if op_ == '===': return ir.constraint_eq(sv(lhs), e, meta=m())
+            return ir.subst(ir.name(lhs), 'AssignConstraintSignal' if op_ == '<==' else 'AssignSignal', e, meta=m())
         if kind == 'B=t': return asg('B', var('t'))
         if kind == 'B=B*t': return asg('B', ir.infix('Mul', var('B'), var('t'), meta=m()))
         if kind == 'B=B+t': return asg('B', ir.infix('Add', var('B'), var('t'), meta=m()))
@@ -419,6 +451,15 @@ def run_task(task):
     decl_new = pr.method(None, 'Declaration', 'new', file_hint='declarations.rs'); decls_add = pr.method(None, 'Declarations', 'add_declaration')
     cfg_types = pr.method(None, 'Cfg', 'propagate_types'); cfg_values = pr.method(None, 'Cfg', 'propagate_values'); cfg_cache = pr.method(None, 'Cfg', 'cache_variable_use')
     ccpass = pr.find('find_constant_conditional_statement', crate='analysis')
+    pass_fns = [pr.find(n_, crate='analysis') for n_ in PASSES] if task.get('mode') == 'passes' else []
+
+    def report_key(r_):
+        r_ = deref(r_)
+        if isinstance(r_, Opaque): return ('opaque', str(r_.tag), str(getattr(r_, 'data', ''))[:40])
+        code = ir.get(r_, 'code').var
+        rng = lambda l_: (str(deref(l_).f[1]), str(deref(l_).f[2].f[0]), str(deref(l_).f[2].f[1]))
+        msg = ir.get(r_, 'message'); msg = msg.concrete() if isinstance(msg, StrV) else str(msg)
+        return (str(code), msg, tuple(rng(l_) for l_ in ir.get(r_, 'primary').items), tuple(sorted(rng(l_) for l_ in ir.get(r_, 'secondary').items)))
 
     def cc_report(ex, a, m):
         ex.notes['cc'][ir.get(deref(a[0]), 'location').f[0]] = a[1]; return Opaque('report', 'cc')
@@ -431,7 +472,7 @@ def run_task(task):
         if dt == 'Function' and 's===B' in ks: return 'skip'         # no constraints in functions
         sk = C12.number(sk0, [0])
         kinds = dict(zip(leaf_ids(sk), ks)); conds = dict(zip(ctrl_ids(sk), cs))
-        ex.notes.update(sk=sk, kinds=kinds, conds=conds, claims=[])
+        ex.notes.update(sk=sk, kinds=kinds, conds=conds, claims=[], ks=ks)
         body = C12.ast_of(ir, sk)
         res = ex.call_mir(build, [Ref([body], 0), Ref([Opaque('liftenv')], 0), Ref([VecV([])], 0)])
         if res.var != 'Ok': ex.oblige(False, 'lift-ok', 'lifting a well-formed skeleton succeeds'); return None
@@ -439,6 +480,8 @@ def run_task(task):
         decls = Struct('Declarations', [MapV()]); dcell = [decls]
         sigty = lambda: ir.vtype('signal', 'Output')
         dl = [(V['A'](), local(), []), (V['B'](), local(), []), (V['C'](), local(), []), (V['D'](), local(), [ir.number(2, meta=ir.meta(903, 903))])] + ([(V['s'](), sigty(), [])] if dt == 'Template' else []) + ([(V['t'](), ir.vtype('signal', 'Input'), [])] if task.get('mode') == 'degrees' else [])
+        if task.get('mode') == 'passes':
+            dl = [(V['A'](), local(), []), (ir.name('a'), ir.vtype('signal', 'Input'), []), (ir.name('b'), ir.vtype('signal', 'Intermediate'), []), (ir.name('c'), ir.vtype('signal', 'Intermediate'), []), (ir.name('d'), ir.vtype('signal', 'Output'), [])]
         for nm, ty, dims in dl:
             d = ex.call_mir(decl_new, [Ref([nm], 0), Ref([ty], 0), SliceV(VecV(dims), 0, len(dims)), Ref([some(0)], 0), Ref([ir.range_(0, 0)], 0)])
             ex.call_mir(decls_add, [Ref(dcell, 0), Ref([d], 0)])
@@ -446,6 +489,8 @@ def run_task(task):
         pre = [ir.decl([V['B']()], local(), meta=ir.meta(900, 900)), ir.decl([V['C']()], local(), meta=ir.meta(901, 901)), ir.decl([V['D']()], local(), dims=[ir.number(2, meta=ir.meta(903, 903))], meta=ir.meta(903, 903))]
         if dt == 'Template': pre.append(ir.decl([V['s']()], sigty(), meta=ir.meta(902, 902)))
         if task.get('mode') == 'degrees': pre.append(ir.decl([V['t']()], ir.vtype('signal', 'Input'), meta=ir.meta(904, 904)))
+        if task.get('mode') == 'passes':
+            pre = [ir.decl([ir.name(n_)], ir.vtype('signal', k_), meta=ir.meta(900 + j_, 900 + j_)) for j_, (n_, k_) in enumerate((('a', 'Input'), ('b', 'Intermediate'), ('c', 'Intermediate'), ('d', 'Output')))]
         stmts0.items[0:0] = pre
         n = len(blocks.items)
         for k in range(n):
@@ -474,6 +519,24 @@ def run_task(task):
         if task.get('mode') == 'degrees':
             ex.call_mir(cfg_degrees, [Ref(ccell, 0)])
             ex.notes['cfg'] = ccell[0]; return 'degrees'
+        if task.get('mode') == 'passes':
+            # C17: every intra-procedural pass of get_analysis_passes, with the real report construction, under several iteration orders
+            ex.call_mir(cfg_degrees, [Ref(ccell, 0)])
+            results = {}
+            for order in (None, 'reverse', 'rotate', 'shuffle:1') + (('shuffle:2', 'shuffle:3') if task.get('tier') == 'thorough' else ()):
+                ex.h.notes['hash_order'] = order; ex.h.notes['hash_iterations'] = 0
+                keys = []
+                try:
+                    for pf in pass_fns:
+                        out_ = ex.call_mir(pf, [Ref(ccell, 0)])
+                        keys += [report_key(r_) for r_ in deref(out_).items]
+                finally: ex.h.notes['hash_order'] = None
+                results[order or 'insertion'] = sorted(keys)
+            first = results['insertion']
+            for order, got in results.items():
+                ex.oblige(got == first, 'order-dependent', 'the analysis passes produce the same multiset of findings when every hash map / set is iterated in the order `%s` (insertion order: %s; %s: %s) on template {%s}' % (order, first, order, got, '; '.join(ex.notes['ks'])))
+            ex.oblige(True, 'passes', '%d findings under every order' % len(first))
+            return 'orders'
         ex.call_mir(side, [Ref(ccell, 0)])
         if task.get('orders'):
             # C17: the same pass under other iteration orders of every HashMap / HashSet must make the same multiset of claims
